@@ -101,7 +101,7 @@ func runScript(c *Ctx, cfg wcfg, sc wScript, sink *gen.Sink) scriptResult {
 				_, err = w.ReadFrom(bytes.NewReader(s.data))
 				res.calls = append(res.calls, "ReadFrom")
 			} else {
-				_, err = w.Write(s.data)
+				_, err = writeRecycled(w, s.data)
 				res.calls = append(res.calls, "Write")
 			}
 			if err != nil {
